@@ -10,7 +10,7 @@ CLAIMED = {
     # id: (level, technique, level text, level note, design ref)
     'C03': ('exploration',
             'deterministic simulation: seeded gradient-fault injection + crash/restore over replicated/quantized/sharded modes, gate invariants per tick',
-            'Seeded search over fault sequences and histories; every tick checks that each stored preconditioner is bit-identical to the previous one or was replaced on a refresh tick by a root whose reported error is finite and below the threshold, that stored preconditioners stay finite, and that unpoisoned leaves get finite updates. Evidence, not proof.',
+            'Seeded search over fault sequences and histories; every tick checks that each stored preconditioner is bit-identical to the previous one or was replaced on a refresh tick by a root whose reported error is finite and below the threshold, that stored preconditioners stay finite, that unpoisoned leaves get finite updates; whether healthy leaves keep getting accepted refreshes after faults is counted as a reach probe, not asserted. Thresholds just above/below the reported error and non-finite errors (NaN, +-inf) are driven on purpose. Evidence, not proof.',
             'Trusts the reported inverse_pth_root_errors in training_metrics as the value the gate tested; vmap named axis stands in for pmap replicas; sizes are small (dims<=10, <=4 leaves, <=40 ticks).',
             'DESIGN.md 4 C03'),
     'C01': ('exploration',
@@ -20,8 +20,8 @@ CLAIMED = {
             'DESIGN.md 5 C01'),
     'C02': ('exploration',
             'deterministic simulation: one-step refinement of the real update against an independent float64 reference model over seeded configs, trees and (faulted) histories',
-            'Seeded search over option combinations, trees of rank 0-4 and histories; at every tick a float64 numpy model written from the documentation, fed the implementation\'s own previous state and its stored roots, predicts update, statistics, both momenta and the graft accumulator to float32 rounding tolerance (forward-error bound of the root application included). Replicated, simulated-replica, quantized and sharded (roots from the previous refresh) modes.',
-            'The roots themselves are trusted here and checked by C01/C03/C04; leaves into which the plan injected non-finite or out-of-range values are muted (counted).',
+            'Seeded search over option combinations, trees of rank 0-4 and histories; at every tick a float64 numpy model written from the documentation, fed the implementation\'s own previous state and its stored roots, predicts update, statistics, both momenta and the graft accumulator to float32 rounding tolerance (forward-error bound of the root application included). Replicated, simulated-replica, quantized and sharded (roots from the previous refresh) modes. Root provenance: a stored root that changed must have changed on a refresh tick and must satisfy the residual oracle for the exponent the documentation assigns to that statistic (2 x rank or the override), also under simulated replicas where each replica computes a slice of the roots; a float64 replay of the reached statistics (roots64) bounds what precision the documented root needs.',
+            'Root accuracy proper is decided by C01/C03/C04 (here only exponent and provenance); leaves into which the plan injected non-finite or out-of-range values are muted (counted).',
             'DESIGN.md 4 C02, appendix A'),
     'C05': ('exploration',
             'deterministic simulation: closed-form grafting norms and model-computed directions per tick, across every preconditioner representation',
@@ -35,28 +35,28 @@ CLAIMED = {
             'DESIGN.md 4 C04'),
     'C07': ('exploration',
             'deterministic simulation: configuration swarm over every constructor argument x trees x short histories with restore; outcome taxonomy (success / explicit rejection / internal error) and layout oracles incl. scan carry, checkpoint target and sharded declarations',
-            'Seeded search over all constructor options of distributed_shampoo (compression, frequent directions, gradient averaging, reuse/reset, LOBPCG, INPUT/OUTPUT, block size 1, metrics on/off, quantization, simulated replicas, sharding, x64 on/off), sm3 and tearfree on trees of rank 0-4 with unit dims and the empty tree. Every run must either succeed or raise an explicit explanatory rejection; on success the update tree matches the parameters in structure/shape/dtype, the state signature is a fixed point of update (also demonstrated as a lax.scan carry and a from_bytes target), and in sharded mode init, declared shapes/dtypes and partition specs describe one tree.',
+            'Seeded search over all constructor options of distributed_shampoo (compression, frequent directions, gradient averaging, reuse/reset, LOBPCG, INPUT/OUTPUT, block size 1, metrics on/off, quantization, simulated replicas, sharding, x64 on/off), sm3 and tearfree on trees of rank 0-4 with unit dims and the empty tree, with Python-float, float32 and optax-schedule learning rates. Every run must either succeed or raise an explicit explanatory rejection; on success the update tree matches the parameters in structure/shape/dtype, the state signature is a fixed point of update (also demonstrated as a lax.scan carry and a from_bytes target), and in sharded mode init, declared shapes/dtypes and partition specs describe one tree; no state leaf is weakly typed and dtypes do not drift under x64.',
             'Explicit rejection = raise statement or assert-with-message in a repository frame; LOBPCG only on sizes its JAX implementation accepts; T<=4 ticks.',
             'DESIGN.md 4 C07'),
     'C08': ('exploration',
-            'deterministic simulation: three optimizer instances in lock-step (blocked tensor / its blocks as leaves / plus companions) on histories with per-block scales 1e-6..1e6, one-hot and zero blocks',
-            'Twin runs for Distributed Shampoo (1 or 2 blocked axes, ragged last block) and Tearfree Shampoo: per tick every block of the blocked tensor gets the update (graft none) or the direction (grafted) that it gets as a separate leaf, zero-gradient blocks get zero, and the tensor\'s update is unchanged by companion leaves of arbitrary shape and scale.',
+            'deterministic simulation: four optimizer instances in lock-step (blocked tensor / its blocks as leaves / one block alone / plus companions of mixed rank at a random tree position), optionally on simulated replicas, on histories with per-block scales 1e-6..1e6, one-hot and zero blocks',
+            'Twin runs for Distributed Shampoo (1 or 2 blocked axes, ragged last block) and Tearfree Shampoo: per tick every block of the blocked tensor gets the update (graft none) or the direction (grafted) that it gets as a separate leaf, zero-gradient blocks get zero, the tensor\'s update is unchanged by companion leaves of arbitrary shape, rank, scale and position (also with 2-3 simulated replicas, where statistics of different leaves share a replica\'s work list), and parameters smaller than one block behave like their own block.',
             'Momentum and weight decay off; tolerances 2e-3 (float32 DS) / 1e-6 (float64 Tearfree) relative.',
             'DESIGN.md 4 C08'),
     'C09': ('exploration',
             'deterministic simulation: sketch state after every update vs the exact float64 discounted covariance kept by the oracle, over seeded histories with zero / low-rank / scale-jump ticks, restores and clock jumps',
-            'Three systems run real code: Tearfree Sketchy (per-axis state), the Distributed Shampoo frequent-directions root (decoded from the packed preconditioner slot with the repo\'s own unpack) and the OCO sketches. After every sketch update: columns orthonormal-or-zero, l>=0, t>=0, V diag(l) V\' <= C <= V diag(l) V\' + t I, t_new = b t_old + r with r recomputed from the stored previous sketch, zero-gradient ticks discount sketch and escaped mass by b, rank<=k histories give t=0, stored inverse roots equal (l+t+eps)^(-1/p).',
+            'Three systems run real code: Tearfree Sketchy (per-axis state, rank 2-3 tensors), the Distributed Shampoo frequent-directions root (rank 2-3 tensors) (decoded from the packed preconditioner slot with the repo\'s own unpack) and the OCO sketches. After every sketch update: columns orthonormal-or-zero, l>=0, t>=0, V diag(l) V\' <= C <= V diag(l) V\' + t I, t_new = b t_old + r with r recomputed from the stored previous sketch, zero-gradient ticks discount sketch and escaped mass by b, rank<=k histories give t=0, stored inverse roots equal (l+t+eps)^(-1/p).',
             'float32 tolerances 1e-4..2e-4 relative to ||C|| (probed headroom >= 15x); the DS FD path is driven with finite gradients only (its LAPACK svd hangs on non-finite input); one known finding (padded DS FD statistics) is listed in known_findings.json.',
             'DESIGN.md 4 C09, appendix C'),
     'C10': ('exploration',
             'deterministic simulation, in situ: compressed-mode runs; packed state decoded with the repo\'s own unpack and compared with dense application and with the exact float64 truncated root',
-            'Restricted reach (clause 1, pack/unpack as isolated functions, is not decided). In compression_rank = +-1..3 runs (jit, simulated replicas, sharded, padded statistics): the update through the compressed application path equals the reference\'s dense application of c(I-VV\')+V diag(e) V\' (one-step refinement and grafting direction/norm oracles), and on refresh ticks the retained subspace, the retained root values and the mean of the non-retained root values equal those of the exact float64 eigendecomposition of the stored statistics for some admissible ridge.',
-            'Root-value comparisons are vacuous where lambda+d is within 300x of the float32 eigenvalue noise or the gap at the cut is below 1e-3 lambda_max.',
+            'Restricted reach (clause 1, pack/unpack as isolated functions, is not decided). In compression_rank = +-1..3 runs (jit, simulated replicas, sharded, padded statistics, the frequent-directions packed variant, gradient scales down to 1e-12 in float32): the update through the compressed application path equals the reference\'s dense application of c(I-VV\')+V diag(e) V\' (one-step refinement and grafting direction/norm oracles), and on refresh ticks the retained subspace, the retained root values and the mean of the non-retained root values equal those of the exact float64 eigendecomposition of the stored statistics for some admissible ridge.',
+            'Root-value comparisons are vacuous where lambda+d is within 1000x of the float32 eigenvalue noise or the gap at the cut is below 1e-3 lambda_max.',
             'DESIGN.md 5 C10'),
     'C11': ('exploration',
             'deterministic simulation, in situ: every quantized leaf of every visited state (SM3 int8 momentum; DS int8 momenta, int16 statistics/preconditioners under simulated replicas) under scale jumps and near-overflow/subnormal faults',
-            'Restricted reach (all float32 tensors / bfloat16 / direct calls are not decided). Per quantized leaf: integers within +-127/32767 and never the most-negative value, column max |q| equals the bucket count, payload diagonal zero up to rounding residue, dequantized value within half a bucket of the float exposed by the update, re-quantization with the repo\'s quantizer reproduces the integers, carried-but-not-updated leaves keep their integers and their bucket sizes stay within 4 ulp of where the carried stretch began; untouched leaves are byte-identical (cadence oracle).',
-            'Leaves whose bucket sizes or diagonals are non-finite (the quantized float was not finite) are vacuous.',
+            'Restricted reach (all float32 tensors / bfloat16 / direct calls are not decided). Per quantized leaf: integers within +-127/32767 and never the most-negative value, column max |q| equals the bucket count, payload diagonal zero up to rounding residue, dequantized value within half a bucket of the float exposed by the update, re-quantization with the repo\'s quantizer reproduces the integers, carried-but-not-updated leaves keep their integers and their bucket sizes stay within 4 ulp of where the carried stretch began; untouched leaves are byte-identical (cadence oracle). Exponent sweep: every reached quantized tensor is re-scaled by powers of two across the float32 exponent range and re-quantized with the repo\'s quantizer, which must reproduce the same integers and a bucket scaled by the same power.',
+            'Leaves whose bucket sizes or diagonals are non-finite (the quantized float was not finite) are vacuous. Two known findings (float32 subnormal bucket sizes / subnormal inputs are flushed to zero by XLA CPU) are listed in known_findings.json.',
             'DESIGN.md 5 C11'),
     'C12': ('exploration',
             'deterministic simulation: SM3 accumulators per tick vs an exact float64 per-entry decayed sum kept by the oracle, over histories with zero ticks, scale jumps 1e+-6 and crash-restores',
@@ -65,12 +65,12 @@ CLAIMED = {
             'DESIGN.md 4 C12'),
     'C13': ('exploration',
             'deterministic simulation: D in-process replicas (vmap named axis; real pmap cross-check) vs a one-replica twin, RESCALE and CRASH_RESTORE mid-run',
-            'Seeded search over trees (N statistics, all residues N mod D), D in 2..13 simulated replicas (and real pmap on forced host devices for D<=8), full / int16-quantized / low-rank compressed preconditioners, and sharded mode with different declared device counts. After every tick all replicas are byte-identical and agree with the one-replica twin (statistics, momenta, gate decisions, preconditioners to a conditioning-aware rounding tolerance, updates).',
-            'Equality across D is checked to a tolerance because D=1 and D>1 are different compiled programs; vmap stands in for pmap (cross-checked).',
+            'Seeded search over trees (N statistics, all residues N mod D), D in 2..13 simulated replicas (and real pmap on forced host devices for D<=8), full / int16-quantized / low-rank compressed / frequent-directions preconditioners, each also with gradient faults on some leaves, and sharded mode with different declared device counts. After every tick all replicas are byte-identical and agree with the one-replica twin (statistics, momenta, gate decisions, preconditioners to a conditioning-aware rounding tolerance, updates).',
+            'Equality across D is checked to a tolerance because D=1 and D>1 are different compiled programs; vmap stands in for pmap (cross-checked). The tolerance of a root comparison is the one of the statistic the root was computed from; momenta downstream of a root too ill-conditioned to compare are vacuous (counted).',
             'DESIGN.md 4 C13'),
     'C14': ('fault_enumeration',
             'deterministic simulation: crash at every step k of each sampled history, only serialized bytes survive, fresh optimizer object/compile (and fresh interpreter for a subset), bitwise twin comparison',
-            'For every sampled (optimizer family and mode, config, tree, history of T ticks) every crash point k in 0..T is executed: to_bytes at k, drop optimizer object, jit cache and live state, construct a fresh optimizer, from_bytes into its init template, continue to T; every later update and state leaf must be byte-identical to the uninterrupted twin. Families: DS full/quantized(replicas)/compressed/FD/sharded/eager, SM3, Tearfree Shampoo/Sketchy. Exhaustive over crash points per history; histories are sampled.',
+            'For every sampled (optimizer family and mode, config, tree, history of T ticks) every crash point k in 0..T is executed: to_bytes at k, drop optimizer object, jit cache and live state, construct a fresh optimizer, from_bytes into its init template, continue to T; every later update and state leaf must be byte-identical to the uninterrupted twin. Families: DS full/quantized(replicas)/compressed/FD/sharded/eager, SM3 (x64 on/off), Tearfree Shampoo/Sketchy; Python-float and optax-schedule learning rates; restored leaves as device arrays, and as numpy arrays (completion only). Exhaustive over crash points per history; histories are sampled.',
             'Checkpoint = flax msgpack of the state pytree; parameters and the gradient stream are checkpointed by the stub trainer; restored leaves are placed on device before an eager update.',
             'DESIGN.md 4 C14'),
     'C15': ('exploration',
